@@ -22,13 +22,17 @@ Oracle:
           a deleted collection file must be named: every answer is data_error MISSING_DATA_<collection>;
     (iii) every /updateCache is answered with the success object.
 
-run(binary, seed, tier, san=False) -> dict(histories, answers, fails=[(why, replay_dict)], fault_kinds, outcome_classes, ...)
+Loader model tie: for histories whose fault is expressible at decoded level (tools/loadmodel.py) the extracted Loader2.load_all must predict
+the outcome class / error code of F, and Loader2.update (names as sent, starting from load_all of A's healthy files) the class of S
+after every /updateCache.
+
+run(binary, seed, tier, san=False, driver=None) -> dict(histories, answers, fails=[(why, replay_dict)], fault_kinds, outcome_classes, ...)
 replay(binary, path, san)          -> re-runs the history of a replay file written by write_replay()."""
 import hashlib, json, os, re, shutil, sys, time
 from concurrent.futures import ThreadPoolExecutor
 
 sys.path.insert(0, os.path.dirname(os.path.abspath(__file__)))
-import build, gen, l3, faults, l3refresh  # noqa: E402
+import build, gen, l3, faults, l3refresh, loadmodel  # noqa: E402
 
 LEVEL = "C17 refresh-fault history on the real binary"
 COLLS = ("agencies", "services", "nodes", "lines", "paths", "scenarios", "dataSources")
@@ -72,7 +76,7 @@ def history_spec(seed, tier, index):
         target = "coll:" + COLLS[(seed + rnd + k) % len(COLLS)]
     if kind == "inconsistency":
         k = sum(1 for (kk, _) in PLAN[:slot] if kk == "inconsistency")
-        target = (seed * 5 + rnd * 4 + k) * 7        # index into the list of inconsistencies (modulo its length; 7 is coprime to it)
+        target = (seed * 5 + rnd * 4 + k) * 7        # index into the list of inconsistencies (modulo its length, 22; 7 is coprime to it)
     return dict(index=index, seed=seed, tier=tier, kind=kind, target=target, cache_all=(index + rnd) % 2 == 1, A=A, A2=A2, requests=reqs,
                 rand=[frng.next() for _ in range(4)])
 
@@ -204,7 +208,8 @@ def run_history(binary, spec, workdir, san=False, keep_on_failure=True):
     base = dict(level=LEVEL, seed=spec["seed"], tier=spec["tier"], history=spec["index"], fault_kind=spec["kind"], target=spec["target"],
                 cache_all=cache_all, dataset_A=A.text(), binary=binary, sanitizers=san)
     fails, answers, steps = [], 0, []
-    res = dict(fails=fails, label="?", kind=spec["kind"], outcome="harness", independence_checked=False)
+    res = dict(fails=fails, label="?", kind=spec["kind"], outcome="harness", independence_checked=False,
+               model_obs=dict(concrete=None, fresh=None, steps=[]))       # what the loader-model comparison needs
     stub = l3.OsrmStub()
     old = fresh = second = None
     tmo = 60 if san else 30
@@ -231,12 +236,14 @@ def run_history(binary, spec, workdir, san=False, keep_on_failure=True):
         label, concrete = apply_fault(spec, cache)
         res["label"] = base["fault"] = label
         base["concrete_faults"] = concrete
+        res["model_obs"]["concrete"] = concrete
         updates = update_sequence(spec, label)
         fresh = l3.Server(binary, cache, stub.port, threads=1, cache_all=cache_all, start_timeout=tmo)
         base["fresh_server_log"] = fresh.log_path
         f1 = l3refresh.ask_all(fresh, stub, reqs)
         answers += len(reqs)
-        dead(fresh, "the server freshly started on the faulted directory", "start-up and requests")
+        if not dead(fresh, "the server freshly started on the faulted directory", "start-up and requests"):
+            res["model_obs"]["fresh"] = [answer_class(a) for a in f1]
         for i, a in enumerate(f1):
             if malformed(a):
                 fail("fresh server on the faulted directory: %s" % malformed(a), phase="fresh", request_number=i, request=reqs[i], answer=a)
@@ -258,6 +265,8 @@ def run_history(binary, spec, workdir, san=False, keep_on_failure=True):
                 break
             a1 = l3refresh.ask_all(old, stub, reqs)
             answers += len(reqs)
+            if old.alive():
+                res["model_obs"]["steps"].append((names, [answer_class(a) for a in a1]))
             for i, r in enumerate(reqs):
                 bad = malformed(a1[i])
                 if bad:
@@ -323,7 +332,54 @@ def run_history(binary, spec, workdir, san=False, keep_on_failure=True):
 # ---------------------------------------------------------------------------------------------------
 # all histories of a tier
 # ---------------------------------------------------------------------------------------------------
-def run(binary, seed, tier, san=False, only=None, workers=None):
+def loader_model_tie(driver, specs, results):
+    """Loader2.load_all / Loader2.update against the fresh and the refreshed server of every history with a decoded-level fault"""
+    out = dict(loader_model_comparisons=0, loader_model_startup=0, loader_model_refresh=0, loader_model_disagreements=[], loader_model_by_kind={},
+               loader_model_predicted={}, loader_model_not_expressible=0, known_model_gap={})
+    if driver is None:
+        return out
+
+    def count(d, k):
+        out[d][k] = out[d].get(k, 0) + 1
+    for s, r in zip(specs, results):
+        obs = r["model_obs"]
+        if not obs["concrete"]:
+            continue
+        dirs = loadmodel.decoded_faults(obs["concrete"])
+        if dirs is None:
+            out["loader_model_not_expressible"] += 1
+            continue
+        key = "delete all per-line files" if s["target"] == "all_linefiles" else loadmodel.kind_key(tuple(obs["concrete"][0]))
+        if key in loadmodel.KNOWN_MODEL_GAPS:
+            count("known_model_gap", key)
+            continue
+        steps = obs["steps"]
+        try:
+            p = loadmodel.predict(driver, s["A"], [("h", dirs, "healthy", [n for (n, _) in steps])])["h"]
+        except Exception as e:
+            out["loader_model_disagreements"].append("history %d: the model could not be run: %s" % (s["index"], str(e)[:300]))
+            continue
+        where = "history %d (seed %d, tier %s), fault '%s' (decoded-level: %s)" % (s["index"], s["seed"], s["tier"], r["label"], "; ".join(dirs))
+        if obs["fresh"] is not None:
+            out["loader_model_comparisons"] += 1
+            out["loader_model_startup"] += 1
+            count("loader_model_by_kind", key)
+            count("loader_model_predicted", loadmodel.expected_class(p["load"]))
+            if not loadmodel.class_matches(p["load"], obs["fresh"]):
+                out["loader_model_disagreements"].append("%s: at start-up on the faulted files the model gives %s (sizes %s, read error %d), the fresh server answers %s"
+                                                         % (where, loadmodel.expected_class(p["load"]), p["load"]["sizes"], p["load"]["read_error"], sorted(set(obs["fresh"]))))
+        for (names, classes), u in zip(steps, p["updates"]):
+            out["loader_model_comparisons"] += 1
+            out["loader_model_refresh"] += 1
+            count("loader_model_by_kind", key)
+            count("loader_model_predicted", "after refresh: " + loadmodel.expected_class(u))
+            if not loadmodel.class_matches(u, classes):
+                out["loader_model_disagreements"].append("%s: after /updateCache?names=%s on the healthy server the model (Loader2.update) gives %s (sizes %s), the refreshed server answers %s"
+                                                         % (where, names, loadmodel.expected_class(u), u["sizes"], sorted(set(classes))))
+    return out
+
+
+def run(binary, seed, tier, san=False, only=None, workers=None, driver=None):
     t0 = time.time()
     n = N_QUICK if tier == "quick" else N_THOROUGH
     root = os.path.join(build.WORK, "scratch", "c17-refresh-%d-%s" % (seed, tier))
@@ -331,7 +387,7 @@ def run(binary, seed, tier, san=False, only=None, workers=None):
         shutil.rmtree(root, ignore_errors=True)
     os.makedirs(root, exist_ok=True)
     specs = [history_spec(seed, tier, i) for i in (range(n) if only is None else [only])]
-    workers = workers or 12
+    workers = workers or int(os.environ.get("TRV_JOBS", "12"))
     with ThreadPoolExecutor(max_workers=workers) as ex:
         results = list(ex.map(lambda s: run_history(binary, s, os.path.join(root, "h%03d" % s["index"]), san=san), specs))
     fails, kinds, outcomes, targets = [], {}, {}, {}
@@ -344,10 +400,11 @@ def run(binary, seed, tier, san=False, only=None, workers=None):
         targets[t] = targets.get(t, 0) + 1
     if only is None and not fails:
         shutil.rmtree(root, ignore_errors=True)
+    tie = loader_model_tie(driver, specs, results)
     return dict(histories=len(specs), answers=sum(r["answers"] for r in results), fails=fails, fault_kinds=kinds, fault_targets=targets,
                 outcome_classes=outcomes, updates=sum(len(r["updates"]) for r in results),
                 independence_checked=sum(1 for r in results if r["independence_checked"]),
-                labels=[r["label"] for r in results], wall_s=round(time.time() - t0, 1))
+                labels=[r["label"] for r in results], wall_s=round(time.time() - t0, 1), **tie)
 
 
 def write_replay(pid, why, rd):
@@ -372,7 +429,7 @@ def is_replay(path):
 def replay(binary, path, san=False):
     with open(path) as f:
         rd = json.load(f)
-    return run(binary, int(rd["seed"]), rd["tier"], san=san, only=int(rd["history"]))
+    return run(binary, int(rd["seed"]), rd["tier"], san=san, only=int(rd["history"]), driver=build.build_driver()[0])
 
 
 def describe(why, rd):
@@ -403,8 +460,10 @@ if __name__ == "__main__":
     if not binary:
         print(err)
         sys.exit(2)
-    res = run(binary, seed, tier, san=san, only=int(sys.argv[3]) if len(sys.argv) > 3 else None)
+    res = run(binary, seed, tier, san=san, only=int(sys.argv[3]) if len(sys.argv) > 3 else None, driver=build.build_driver()[0])
     for (why, rd) in res["fails"][:10]:
         print(describe(why, rd))
+    for w in res["loader_model_disagreements"][:10]:
+        print("  model Loader2.load_all and the real loaders disagree: " + w)
     print({k: v for k, v in res.items() if k != "fails"}, "fails:", len(res["fails"]))
-    sys.exit(1 if res["fails"] else 0)
+    sys.exit(1 if res["fails"] or res["loader_model_disagreements"] else 0)
